@@ -1,7 +1,10 @@
 package props
 
 import (
+	"fmt"
 	"go/ast"
+	"go/constant"
+	"go/token"
 	"go/types"
 	"sort"
 	"strings"
@@ -28,6 +31,8 @@ var c26PercentV = map[string]string{
 func c26(p *core.Program, r *core.Report) {
 	r.Rule("R1", "rune/byte offset typing: in the generated parser's Execute, token offsets (which index the []rune buffer) are never used to slice a string; the matched text is taken from the rune buffer")
 	r.Rule("R2", "forwardable-argument table: every static type stored into a call's argument map (parser actions and their helpers in package pql; executor rewrites in package pilosa) is printed by formatValue in a form the grammar re-reads as the same type: an explicit formatValue case, or one of the frozen types whose %v form is grammatical; formatValue's nil, list and float cases do not fall through to %v")
+	r.Rule("R3", "quoting is the inverse of unquoting: the parser reads string literals with strconv.Unquote, so in package pql's printing code (everything outside the generated parser) a string is put between double quotes only by strconv.Quote or the %q verb; wrapping by hand (concatenation with a `\"` literal, or a format like \"%s\" with the quotes written out) is accepted only around time.Time.Format results")
+	c26Quoting(p, r)
 	r.NotDecided = "that the PEG grammar accepts exactly PQL; escape handling inside strconv.Unquote; numeric range handling; values nested inside lists"
 	qp, pk := p.Pkg("pql"), p.Pkg("")
 	if qp == nil || pk == nil {
@@ -199,5 +204,118 @@ func c26(p *core.Program, r *core.Report) {
 		default:
 			r.Violate("R2", construct, "", "values of type "+t+" are stored into a call's arguments ("+stored[t]+") but formatValue has no case for them: the forwarded query text does not re-parse to the same value")
 		}
+	}
+}
+
+// c26Quoting: R3.
+func c26Quoting(p *core.Program, r *core.Report) {
+	qp := p.Pkg("pql")
+	info := qp.TypesInfo
+	isTimeFormat := func(e ast.Expr) bool {
+		c, ok := ast.Unparen(e).(*ast.CallExpr)
+		if !ok {
+			return false
+		}
+		fn := core.CalleeOf(info, c)
+		return fn != nil && fn.Name() == "Format" && fn.Pkg() != nil && fn.Pkg().Path() == "time"
+	}
+	constStr := func(e ast.Expr) (string, bool) {
+		tv, ok := info.Types[e]
+		if !ok || tv.Value == nil || tv.Value.Kind() != constant.String {
+			return "", false
+		}
+		return constant.StringVal(tv.Value), true
+	}
+	var bad []string
+	nQuote := 0
+	for _, fd := range core.AllFuncDecls(qp) {
+		if fd.Body == nil {
+			continue
+		}
+		file := p.Fset.Position(fd.Pos()).Filename
+		if strings.HasSuffix(file, "_test.go") || strings.HasSuffix(file, ".peg.go") {
+			continue
+		}
+		ast.Inspect(fd.Body, func(n ast.Node) bool {
+			switch x := n.(type) {
+			case *ast.BinaryExpr:
+				if x.Op != token.ADD {
+					return true
+				}
+				for _, pair := range [][2]ast.Expr{{x.X, x.Y}, {x.Y, x.X}} {
+					if c, ok := constStr(pair[0]); ok && strings.Contains(c, "\"") {
+						if _, isConst := constStr(pair[1]); !isConst {
+							if b, ok := info.TypeOf(pair[1]).Underlying().(*types.Basic); ok && b.Kind() == types.String && !isTimeFormat(pair[1]) {
+								// the other operand may itself be a concatenation; look at its leaves
+								bad = append(bad, p.Pos(x.Pos())+": "+types.ExprString(x))
+							}
+						}
+					}
+				}
+			case *ast.CallExpr:
+				fn := core.CalleeOf(info, x)
+				if fn == nil || fn.Pkg() == nil {
+					return true
+				}
+				key := fn.Pkg().Path() + "." + fn.Name()
+				if key == "strconv.Quote" {
+					nQuote++
+				}
+				if fn.Pkg().Path() != "fmt" || len(x.Args) == 0 {
+					return true
+				}
+				fi := 0
+				if strings.HasPrefix(fn.Name(), "F") {
+					fi = 1
+				}
+				if fi >= len(x.Args) {
+					return true
+				}
+				format, ok := constStr(x.Args[fi])
+				if !ok {
+					return true
+				}
+				if strings.Contains(format, "%q") {
+					nQuote++
+				}
+				// verbs in order; a %s or %v directly wrapped in quotes
+				args := x.Args[fi+1:]
+				ai := 0
+				for i := 0; i < len(format); i++ {
+					if format[i] != '%' || i+1 >= len(format) {
+						continue
+					}
+					j := i + 1
+					for j < len(format) && strings.ContainsRune("+-# 0123456789.[]*", rune(format[j])) {
+						j++
+					}
+					if j >= len(format) {
+						break
+					}
+					verb := format[j]
+					if verb == '%' {
+						i = j
+						continue
+					}
+					wrapped := i > 0 && format[i-1] == '"' && j+1 < len(format) && format[j+1] == '"'
+					if wrapped && (verb == 's' || verb == 'v') && ai < len(args) {
+						if b, ok := info.TypeOf(args[ai]).Underlying().(*types.Basic); ok && b.Kind() == types.String && !isTimeFormat(args[ai]) {
+							bad = append(bad, p.Pos(x.Pos())+": "+types.ExprString(x))
+						}
+					}
+					ai++
+					i = j
+				}
+			}
+			return true
+		})
+	}
+	switch {
+	case len(bad) > 0:
+		r.Violate("R3", "pql printing code", "", "a string is wrapped in double quotes by hand at "+strings.Join(dedupe(bad), "; ")+": characters that strconv.Unquote rejects or interprets (a raw newline, a backslash, a quote) make the receiving node read a different value, or silently an empty string")
+	case nQuote == 0:
+		r.Violate("R3", "pql printing code", "", "no use of strconv.Quote or %q found: string arguments are not quoted for the parser")
+	default:
+		r.Hold("R3", "pql printing code", fmt.Sprintf("%d quoting sites use strconv.Quote/%%q; no hand-made quoting of string values", nQuote))
 	}
 }
